@@ -33,6 +33,10 @@ pub trait Hooks: Send + Sync {
     fn ping(&self, _endpoint: &str) -> Option<bool> {
         None
     }
+    /// Monotonic clock seam: `Some(offset)` = the time is `offset` after a fixed base.
+    fn clock_offset(&self) -> Option<std::time::Duration> {
+        None
+    }
     /// Returns true when the handler consumed the wait (skip the real sleep).
     fn retry_sleep(&self, _name: &'static str) -> bool {
         false
@@ -93,6 +97,10 @@ pub fn kill_errno(pid: u32) -> Option<i32> {
     current().and_then(|h| h.kill_errno(pid))
 }
 
+pub fn clock_offset() -> Option<std::time::Duration> {
+    current().and_then(|h| h.clock_offset())
+}
+
 pub fn ping(endpoint: &str) -> Option<bool> {
     current().and_then(|h| h.ping(endpoint))
 }
@@ -109,5 +117,39 @@ pub fn spawn(name: &'static str, fut: SpawnedFuture) -> Option<SpawnedFuture> {
     match current() {
         Some(h) => h.spawn(name, fut),
         None => Some(fut),
+    }
+}
+
+/// `use rip_kernel::verif::seam_std as std;` inside a function body puts that body's
+/// `std::time::Instant` behind the clock seam without touching its lines.
+pub mod seam_std {
+    pub use ::std::*;
+    pub mod time {
+        pub use ::std::time::{Duration, SystemTime, UNIX_EPOCH};
+        use ::std::sync::OnceLock;
+
+        static BASE: OnceLock<::std::time::Instant> = OnceLock::new();
+
+        #[derive(Clone, Copy, Debug, PartialEq, Eq, PartialOrd, Ord)]
+        pub struct Instant(::std::time::Instant);
+
+        impl Instant {
+            pub fn now() -> Self {
+                match crate::verif::clock_offset() {
+                    Some(offset) => Instant(*BASE.get_or_init(::std::time::Instant::now) + offset),
+                    None => Instant(::std::time::Instant::now()),
+                }
+            }
+            pub fn elapsed(&self) -> Duration {
+                Self::now().0.saturating_duration_since(self.0)
+            }
+        }
+
+        impl ::std::ops::Add<Duration> for Instant {
+            type Output = Instant;
+            fn add(self, rhs: Duration) -> Instant {
+                Instant(self.0 + rhs)
+            }
+        }
     }
 }
